@@ -21,7 +21,10 @@ THEOREMS = ['C16.users_roundtrip', 'C16.users_load_total', 'C16.lines_roundtrip'
             'C16.users_roundtrip_partial_leading_blank', 'C16.users_roundtrip_partial_tab', 'C16.users_nameless_aborts',
             'C16.users_stale_creator_poisons_next_load', 'C16.users_hashed_flag_lost',
             'C16.users_inverse_pair_order_dependent', 'C16.users_hostmask_like_name_aborts',
-            'C16.users_linebreak_name_refused']
+            'C16.users_linebreak_name_refused',
+            'C16.channels_roundtrip', 'C16.loadedChan_same', 'C16.channels_default_anticap_returns', 'C16.channels_expiry_rounded',
+            'C16.networks_roundtrip', 'C16.networks_empty_record_dropped',
+            'C16.ignores_roundtrip', 'C16.ignores_hash_hostmask_lost']
 TRUSTED = ['Lean 4.33.0 kernel; axioms ⊆ {propext, Classical.choice, Quot.sound}',
            'harness/extractors/preserve.py (writer keywords, reader vocabularies, rfc1459 table → Gen/Preserve.lean)',
            'harness/c16.py generators, snapshot/canonicalisation code, hex line protocol',
@@ -272,7 +275,11 @@ def classes_chans(I, S):
             if not line_safe(x): add('C16-unescaped-field')
         if inverse_pair(I, c['caps']): add('C16-capability-inverse-pair')
         for d in I.ircdb.IrcChannel.defaultOff:
-            if d not in c['caps'] and ('-' + d) not in c['caps']:
+            # IrcChannel() starts with -d; it stays unless a written capability displaces it
+            def displaces(x):
+                try: return I.ircdb.invertCapability(x) == '-' + d
+                except (AssertionError, ValueError): return False
+            if ('-' + d) not in c['caps'] and not any(displaces(x) for x in c['caps']):
                 add('C16-channel-default-anticapability')
         for m, e in c['bans'] + c['ignores']:
             if not word_safe(m): add('C16-unescaped-field')
@@ -638,6 +645,8 @@ def chans_roundtrip_case(I, cd, tags, kind, out, descr=None):
               oracle_msg='' if ok else 'channels before flush != after reload (load ended with %s): before %r after %r'
                          % (err, canon_chans(S0), canon_chans(S1)))
     out.append((c2, ['reset', 'c_load\t' + wire.enc(text)], lambda o: canon_c_load(o[1])))
+    c3 = Case(dict(inp, op='storable'), impl=('0' if cls else '1'), kind=kind, tags=('storable-yes',) if not cls else ('storable-no',))
+    out.append((c3, ['c_storable\t' + enc_chans(S0)], lambda o: o[0]))
 
 def g_chan_file(r):
     lines = []
@@ -743,6 +752,10 @@ def nets_roundtrip_case(I, nd, tags, kind, out, descr=None):
               oracle_msg='' if ok else 'networks before flush != after reload (load ended with %s): before %r after %r'
                          % (err, canon_nets(S0), canon_nets(S1)))
     out.append((c2, ['reset', 'n_load\t' + wire.enc(text)], lambda o: canon_n_load(o[1])))
+    # the Lean predicate additionally refuses records without any line (they are dropped by the reader)
+    cls_l = cls or (['empty-record'] if len(drop_empty_nets(S0)) != len(S0) else [])
+    c3 = Case(dict(inp, op='storable'), impl=('0' if cls_l else '1'), kind=kind, tags=('storable-yes',) if not cls_l else ('storable-no',))
+    out.append((c3, ['n_storable\t' + enc_nets(S0)], lambda o: o[0]))
 
 def g_net_file(r):
     lines = []
@@ -833,6 +846,8 @@ def ignores_case(I, r, hostile, out, entries=None, now=None, kind=None, descr=No
               impl=enc_entries(str, S1), oracle_ok=ok, finding=(cls[0] if cls else None),
               oracle_msg='' if ok else 'unexpired ignores before flush %r != ignores after reload %r' % (sorted(live), sorted(S1)))
     out.append((c2, ['i_load\t' + wire.enc(text)], lambda o: o[0]))
+    c3 = Case(dict(inp, op='storable'), impl=('0' if cls else '1'), kind=kind, tags=('storable-yes',) if not cls else ('storable-no',))
+    out.append((c3, ['i_storable\t%d\t%s' % (now, enc_entries(str, S0))], lambda o: o[0]))
 
 def ignores_file_cases(I, r, n, out):
     ircdb = I.ircdb
